@@ -38,6 +38,8 @@ META = {
         "LDAP validator not exercised (needs a directory server)",
         "upstream peers answer every complete request at once; hooks complete immediately",
         "Proxy-Authorization sent *inside* an already authenticated CONNECT tunnel is end-to-end data and not judged",
+        "option-change histories: the proxyauth option is changed between requests (rotated, validator kind switched, removed and set again); every request is judged by the configuration in force when it is sent; a tunnel authenticated before the change is not judged after it",
+        "one Master (and so one ProxyAuth instance) serves all client connections of a worker process, as in production",
     ],
 }
 
@@ -74,7 +76,7 @@ def htpasswd_path():
 
 def option_value(v):
     return {"single": "u:p", "any": "any", "htpasswd": "@" + htpasswd_path(), "single_na": "ü:pä",
-            "single_emptypw": "u:", "single_colon": "u:p:q"}[v]
+            "single_emptypw": "u:", "single_colon": "u:p:q", "single2": "u:p2", "off": None}[v]
 
 
 def ref_valid(v, user, pw):
@@ -90,7 +92,7 @@ def ref_valid(v, user, pw):
 def pairs(v):
     """credential pairs by role for validator v: role -> (user, pw) or None when the role does not exist"""
     good = {"single": ("u", "p"), "any": ("x", "y"), "htpasswd": ("bc", "pw"), "single_na": ("ü", "pä"),
-            "single_emptypw": ("u", ""), "single_colon": ("u", "p:q")}[v]
+            "single_emptypw": ("u", ""), "single_colon": ("u", "p:q"), "single2": ("u", "p2")}[v]
     return {
         "valid": good,
         "wrongpw": (good[0], good[1] + "x"),
@@ -149,11 +151,16 @@ MODES = {
 
 
 def presentation(v, pres, proxy_hdr):
-    """-> (header bytes, status) with status in valid | invalid | ambiguous | None(role absent for this validator)"""
+    """-> (header bytes, status) with status in valid | invalid | ambiguous | None(role absent for this validator).
+    `pres` may be "token@validator": the pair is taken from that validator's roles (credentials that were good
+    under an earlier configuration) while validity is judged under the current validator `v`."""
+    src = v
+    if "@" in pres:
+        pres, src = pres.split("@")
     role, tmpl = PRES[pres]
     if role is None:
         return b"", "invalid"
-    pp = pairs(v)
+    pp = pairs(src)
     if role in ("invalid", "ambiguous"):
         user, pw = pp["valid"]
         status = role
@@ -222,6 +229,7 @@ def cases(maxlen, thorough):
             for n in range(2, maxlen + 1):
                 for seq in itertools.product(P_SEQ, repeat=n):
                     out.append({"v": v, "mode": mode, "strategy": "eager", "steps": [["origin", p] for p in seq]})
+    out += history_cases(thorough)
     # de-duplicate (tunnelled suffixes collapse)
     seen, uniq = set(), []
     for c in out:
@@ -230,6 +238,39 @@ def cases(maxlen, thorough):
             seen.add(k)
             uniq.append(c)
     return uniq
+
+
+TRANSITIONS = [["single", "single2"], ["single2", "single"], ["single", "any"], ["any", "single"], ["single", "htpasswd"], ["htpasswd", "single"],
+               ["htpasswd", "any"], ["single", "off", "single2"], ["htpasswd", "off", "single"]]
+
+
+def history_cases(thorough):
+    """the proxyauth option changes while the proxy runs (password rotated, validator kind switched, option removed and
+    set again): credentials that were accepted before the change are presented again - on the same client connection and
+    on a new one - and must now be judged by the new configuration; then the new configuration's credentials are used."""
+    out = []
+    for tr in TRANSITIONS:
+        v1, v2 = tr[0], tr[-1]
+        reconf = [["reconf", x] for x in tr[1:]]
+        for mode in MODES:
+            kinds = ("abs", "connect") if mode in ("regular", "upstream") else ("socks",) if mode == "socks5" else ("origin",)
+            for kind in kinds:
+                for newconn in ((True,) if kind in ("connect", "socks") else (False, True)):
+                    for strategy in (("eager", "lazy") if thorough else ("eager",)):
+                        def req(owner, first=False):
+                            if kind == "socks":
+                                r = [["socks", "userpass/valid@%s/whole" % owner], ["origin", "none"]]
+                            elif kind == "connect":
+                                r = [["connect", "valid@" + owner], ["inner", "none"]]
+                            else:
+                                r = [[kind, "valid@" + owner]]
+                            return r if first or not newconn else [["newconn", ""]] + r
+
+                        steps = req(v1, first=True) + reconf + req(v1) + req(v2)
+                        if thorough:
+                            steps += req(v1)
+                        out.append({"v": v1, "mode": mode, "strategy": strategy, "steps": steps, "history": ">".join(tr)})
+    return out
 
 
 # ------------------------------------------------------------------ running one case
@@ -243,7 +284,7 @@ def step_bytes(v, mode, k, kind, pres):
     proxy_hdr = mode in ("regular", "upstream")
     if kind == "socks":
         offer, cred, delivery = pres.split("/")
-        pr = pairs(v).get(cred)
+        pr = pairs(cred.split("@")[1]).get(cred.split("@")[0]) if "@" in cred else pairs(v).get(cred)
         if pr is None:
             return None, None
         u, p = pr[0].encode("utf-8"), pr[1].encode("utf-8")
@@ -268,19 +309,48 @@ def step_bytes(v, mode, k, kind, pres):
 
 
 def execute(case):
+    """steps are requests, or ["reconf", validator] (the proxyauth option is changed at run time, "off" removes it), or
+    ["newconn", ""] (the client connection ends and a new one is accepted by the same Master / same addon instances)"""
     v, mode = case["v"], case["mode"]
+
+    def connect(vcur):
+        return World(mode=MODES[mode], opts={"proxyauth": option_value(vcur), "connection_strategy": case["strategy"]},
+                     addons=[ProxyAuth()], master_key="c20-proxyauth", auto_connect=True, snap=h1.http_snap)
+
     try:
-        value = option_value(v)
-        w = World(mode=MODES[mode], opts={"proxyauth": value, "connection_strategy": case["strategy"]},
-                  addons=[ProxyAuth()], master_key="c20-proxyauth", auto_connect=True, snap=h1.http_snap)
+        w = connect(v)
     except exceptions.OptionsError as e:
         return {"configure_error": str(e)}
-    obs = {"steps": [], "crash": None}
+    obs = {"steps": [], "crash": None, "upstream": [], "hooks": [], "errors": [], "finished": True}
     answered = {}
+
+    ci = [0]  # index of the current client connection
+
+    def finish(w):
+        obs["upstream"] += [[list(e.address), e.state, e.w.data, ci[0]] for e in w.servers]
+        obs["hooks"] += [n for n, _ in w.hooks]
+        obs["finished"] = w.close_out() and obs["finished"]
+        obs["errors"] += list(w.errors)
+
     try:
         try:
             w.start()
             for k, (kind, pres) in enumerate(case["steps"]):
+                if kind == "reconf":
+                    v = pres
+                    w.options.update(proxyauth=option_value(v))
+                    w.quiesce()
+                    obs["steps"].append({"reconf": v})
+                    continue
+                if kind == "newconn":
+                    finish(w)
+                    w.dispose()
+                    ci[0] += 1
+                    w = connect(v)
+                    answered = {}
+                    w.start()
+                    obs["steps"].append({"newconn": True})
+                    continue
                 segs, status = step_bytes(v, mode, k, kind, pres)
                 if segs is None:
                     obs["steps"].append({"skipped": "role absent"})
@@ -294,11 +364,8 @@ def execute(case):
                         break
                     w.client_send(s)
                     h1.pump(w, responder, answered)
-                obs["steps"].append({"status": status, "client": w.client.w.data[before:], "closed": bool(w.client.w.closed)})
-            obs["upstream"] = [[list(e.address), e.state, e.w.data] for e in w.servers]
-            obs["hooks"] = [n for n, _ in w.hooks]
-            obs["finished"] = w.close_out()
-            obs["errors"] = list(w.errors)
+                obs["steps"].append({"status": status, "client": w.client.w.data[before:], "closed": bool(w.client.w.closed), "ci": ci[0]})
+            finish(w)
         except KeyboardInterrupt:
             raise
         except BaseException as e:
@@ -311,7 +378,7 @@ def execute(case):
 def upstream_requests(obs):
     """every request an upstream socket received: (connection address, tunnelled?, message)"""
     out = []
-    for addr, state, data in obs["upstream"]:
+    for addr, state, data, _ci in obs["upstream"]:
         msgs, verdict = http1ref.parse_requests(data)
         tunnelled = False
         for m in msgs:
@@ -321,13 +388,19 @@ def upstream_requests(obs):
     return out
 
 
-def feats(case, kind, pres):
+def feats(case, kind, pres, vcur=None):
+    vcur = vcur or case["v"]
     transport = "socks5" if kind == "socks" else "http-basic"
     p = pres.split("/")[1] if kind == "socks" else pres
+    src = vcur
+    if "@" in p:
+        p, src = p.split("@")
     role = p if kind == "socks" else PRES[p][0]
-    pair = pairs(case["v"]).get(role if role not in (None, "invalid", "ambiguous") else "valid")
-    f = {"mode": case["mode"], "path": kind, "pres": p, "validator": case["v"], "transport": transport,
-         "pw_colon": bool(pair and role is not None and ":" in pair[1])}
+    pair = pairs(src).get(role if role not in (None, "invalid", "ambiguous") else "valid")
+    f = {"mode": case["mode"], "path": kind, "pres": p, "validator": vcur, "transport": transport,
+         "pw_colon": bool(pair and role is not None and ":" in pair[1]),
+         # credentials of the current configuration, or of an earlier one (option changed at run time)
+         "creds_of": "current" if src == vcur else "earlier-config", "history": case.get("history", "-")}
     if kind == "socks":
         f["offer"] = pres.split("/")[0]
         f["delivery"] = pres.split("/")[2]
@@ -354,23 +427,35 @@ def judge(case, obs, t: Tally, verbose=False):
     t.outcome([[s.get("status"), s.get("client", b"")[:12], s.get("closed")] for s in obs["steps"]] + [len(ups)])
 
     conn_authed = False  # authenticated for the rest of the connection (valid CONNECT / SOCKS5 credentials)
-    conn_open = True
+    dead = False  # nothing more can be judged on this client connection
+    vcur = v
     allowed_paths = set()
     for k, (kind, pres) in enumerate(case["steps"]):
+        if k >= len(obs["steps"]):
+            break
         s = obs["steps"][k]
-        if "skipped" in s:
+        if "reconf" in s:
+            vcur = s["reconf"]
+            if conn_authed:
+                dead = True  # a tunnel authenticated under the old configuration: the statement does not say what happens to it
             continue
-        f = feats(case, kind, pres)
+        if "newconn" in s:
+            conn_authed, dead = False, False
+            continue
+        if "skipped" in s or dead or vcur == "off":
+            continue
+        f = feats(case, kind, pres, vcur)
         status = s["status"]
+        my_upstream = [u for u in obs["upstream"] if u[3] == s["ci"]]
         marker = b"/r%d" % k
         chost = "c%d.origin.test" % k
         if kind == "connect":
             # forwarded = a CONNECT for it went to the upstream proxy, or bytes were written on a connection to its target
             # (an eager TCP connect that carries nothing is not "forwarding a request")
             fwd = any(m["start"][0] == b"CONNECT" and m["start"][1].startswith(chost.encode()) for _, _, m in ups) \
-                or any(addr[0] == chost and data for addr, _, data in obs["upstream"])
+                or any(u[0][0] == chost and u[2] for u in obs["upstream"])
         elif kind == "socks":
-            fwd = bool(obs["upstream"]) and not s["closed"]
+            fwd = bool(my_upstream) and not s["closed"]
         else:
             fwd = any(m["start"][1].endswith(marker) for _, _, m in ups)
         authed = conn_authed or status == "valid"
@@ -381,7 +466,7 @@ def judge(case, obs, t: Tally, verbose=False):
                     t.judge("cred_header_removed", not any(n.lower() == cred_header for n, _ in m["fields"]), f, case,
                             "no %s header upstream" % cred_header.decode(), m["fields"])
             if kind in ("connect", "socks"):
-                break  # connection state unknown from here on
+                dead = True  # connection state unknown from here on
             continue
 
         if kind == "socks":
@@ -391,14 +476,14 @@ def judge(case, obs, t: Tally, verbose=False):
                 t.judge("accepted_iff_validator_accepts", ok, f, case, "method 02, auth status 00, success reply", {"client": out, "closed": s["closed"]})
                 conn_authed = ok
                 if not ok:
-                    break
+                    dead = True
             else:
                 refused = (out[:2] == b"\x05\xff") or (out[:2] == b"\x05\x02" and len(out) >= 4 and out[2] == 1 and out[3] != 0)
                 t.judge("unauth_gets_407_or_401_or_socks_fail", refused and s["closed"], f, case,
                         "05 FF, or 05 02 then 01 <non-zero>, then close", {"client": out, "closed": s["closed"]})
-                t.judge("unauth_never_forwarded", not obs["upstream"] and b"\x05\x00\x00" not in out, f, case,
-                        "no upstream connection, no success reply", {"upstream": [u[:2] for u in obs["upstream"]], "client": out})
-                break
+                t.judge("unauth_never_forwarded", not my_upstream and b"\x05\x00\x00" not in out, f, case,
+                        "no upstream connection, no success reply", {"upstream": [u[:2] for u in my_upstream], "client": out})
+                dead = True
             continue
 
         # ---- HTTP paths
@@ -414,7 +499,7 @@ def judge(case, obs, t: Tally, verbose=False):
                 if ok:
                     conn_authed = True
                 else:
-                    break
+                    dead = True
             else:
                 ok = code == 200 and fwd
                 t.judge("accepted_iff_validator_accepts", ok, f, case, "request forwarded and 200 relayed",
@@ -432,7 +517,7 @@ def judge(case, obs, t: Tally, verbose=False):
             t.judge("unauth_gets_407_or_401_or_socks_fail", good, f, case, "407 + Proxy-Authenticate or 401 + WWW-Authenticate",
                     {"client": s["client"][:200]})
         if s["closed"]:
-            break
+            dead = True
 
     # nothing else was forwarded: every upstream GET belongs to an authenticated step
     stray = [m["start"] for _, _, m in ups if m["start"][0] != b"CONNECT" and not any(m["start"][1].endswith(p) for p in allowed_paths)]
@@ -464,7 +549,9 @@ def run(ctx):
     cs = cases(maxlen, ctx.thorough)
     ctx.bounds = {"validators": VALIDATORS, "modes": list(MODES), "presentations": list(PRES), "socks_offers": list(SOCKS_OFFERS),
                   "socks_credentials": SOCKS_CREDS, "sequence_alphabet": "{abs,connect} x " + str(P_SEQ) + " (regular, upstream); origin x " + str(P_SEQ) + " (reverse, transparent)",
-                  "max_sequence_length": maxlen, "cases": len(cs)}
+                  "max_sequence_length": maxlen, "option_histories": [">".join(x) for x in TRANSITIONS],
+                  "history_shape": "valid creds of config A; change option; [new connection]; creds of A again; creds of B" + ("; creds of A" if ctx.thorough else ""),
+                  "cases": len(cs)}
     ctx.log("%d cases" % len(cs))
     par.pmap_tally(chunk_fn, cs, ctx.tally, nchunks=64)
 
